@@ -103,6 +103,8 @@ def handle (op : String) (args : List String) (text : String) : String :=
   | "l0run", [budget] => withProg text fun p => (Oracle.run p budget.toNat!).show
   | "l0linrec", [budget] => withProg text fun p => Oracle.linrec p budget.toNat!
   | "rec_steps", [lim] => withProg text fun p => recSteps p lim.toNat!
+  | "l0match", [budget, cfgs] => withProg text fun p =>
+      Oracle.matchSeq p budget.toNat! (cfgs.splitOn "/")
   | "l0cfgs", [ns] => withProg text fun p =>
       "/".intercalate (Oracle.cfgsAt p ((ns.splitOn ",").map String.toNat!))
   | "slots", [] => withProg text showSlots
